@@ -32,22 +32,24 @@ def families(tier):
     """list of (name, places, npts, type-sets, status alphabet, modes); each is a complete product"""
     T = N.TYPES
     lin = [("vector",), ("xyz",), ("vector", "xyz")]
+    STA = ["xx", "fx", "cx", "ff", "fc"]          # with points of free / constrained n,e and fixed u
     if tier == "quick":
         P = [1, 2, 5]
         tsets = subsets(T, [1]) + [("vector", t) for t in T if t != "vector"] + [T]
         return [
-            ("mix3", P, 3, tsets, ST5, ("true", "pert")),
+            ("azimuth3", P, 3, [("azimuth",)], ST4, ("true",)),
             ("linear3", P, 3, lin, ST4, ("far", "omit", "noisy")),
-            ("extra3", P, 3, [("azimuth",), ("anglereflex",)], ST4, ("true",)),
-            ("angle-partial3", [1], 3, [("angle",)], ALL9, ("true",)),
+            ("anglefx3", P, 3, [("vector", "angle"), ("distance", "angle"), T], STA, ("true", "pert")),
+            ("mix3", P, 3, tsets, ST5, ("true", "pert")),
         ]
     P = list(range(len(G.PLACES)))
+    withangle = [t for t in subsets(T, [2, 3, 7]) if "angle" in t]
     # small families first: a deadline cuts the largest product last
     return [
-        ("extra3", P, 3, [("azimuth",), ("anglereflex",)], ST5, ("true", "pert")),
-        ("angle-partial3", [1, 2], 3, [("angle",)], ALL9, ("true",)),
+        ("azimuth3", P, 3, [("azimuth",)], ST5, ("true",)),
         ("linear3", P, 3, lin, ALL9, ("far", "omit", "noisy")),
         ("mix4", P, 4, subsets(T, [1]) + [("vector", "distance"), ("distance", "height", "zenith"), T], ST4, ("true", "pert")),
+        ("anglefx3", P, 3, withangle, STA, ("true", "pert")),
         ("full9", [1, 5], 3, subsets(T, [1, 2]), ALL9, ("true", "pert")),
         ("mix3", P, 3, subsets(T, [1, 2, 3, 7]), ST5, ("true", "pert")),
     ]
@@ -222,7 +224,7 @@ def main():
     ck.finish(
         "every network of the families below is generated, classified by the reference model (exact rank of the own Jacobian), and - unless ill-posed - "
         "adjusted by the real gama-g3 with each of the 4 algorithms and replayed through DataParser + Adj; oracle: exit 0, "
-        "parameters/equations/defect/redundancy = reference (defect = exact nullity), adjusted coordinates = generating coordinates within 2e-6 m "
+        "parameters/equations/defect/redundancy = reference (defect = exact nullity), adjusted coordinates = generating coordinates within 2e-6 m (see assumptions for zenith networks from displaced coordinates) "
         "(resolved-defect networks from displaced coordinates: observations reproduced and corrections orthogonal to the null space over the constrained parameters; "
         "noisy vector networks: own weighted least squares), zero residuals, agreement of the 4 algorithms, of all record orders, and of Adj on the dump. "
         "A state = one generated input file that was executed; a transition = one gama-g3 execution or one Adj solution of a dump. Families: " + " | ".join(bounds),
@@ -232,9 +234,12 @@ def main():
         assumptions=[
             "networks of 3-4 points within 5 km, sights 1.6-4.3 km, height differences 120-720 m; other geometries are not covered",
             "ill-posed networks (defect not resolved by the constrained parameters, or rank decided only by pivots between 1e-10 and 1e-2 of the natural row scale) are excluded by construction and counted as outcome classes excluded:*",
+            "a rank defect counts as exact only if no zenith-angle or angle row touches a parameter on which the null space lives: those rows may legitimately be approximated (plane formulae, neglected tilt of the verticals, relative 1e-7..6e-3), and then the rank of the implementation's matrix is decided by the neglected terms (seen: gso/svd defect 0, envelope/cholesky defect 1 for zenith networks at 89.9 N and for hdiff+angle networks with a common height shift); such networks are excluded as ambiguous",
+            "tolerance of adjusted = generating: 2e-6 m; from displaced approximate coordinates in networks with zenith angles plus eps x 0.57 mm, eps = (1/6.33e6 m) / min(|u|/s) <= 6.5e-3 = the turn of the station's vertical with its position, which gama's plane zenith row leaves out (at most 3.7e-6 m more; observed 2.1-2.3e-6 m where only zenith angles determine a horizontal position). gama-g3 takes one Gauss-Newton step, so a neglected term of relative size eps leaves eps x displacement; with approximate = generating coordinates the tolerance stays 2e-6 m",
             "gama-g3 does not iterate: approximate coordinates are the generating ones or displaced by 0.3-0.6 mm (second order term < 1e-9 m); 0.17-0.34 m only for the linear vector/xyz families",
             "status combinations exist only for n,e jointly (the parser refuses different n and e states) and u",
-            "azimuth is not in the alphabet (every <azimuth> is refused by the parser: known finding); reflex angles and angle points with free n,e and fixed u are run as single-type families only (known findings)",
+            "azimuth is not in the alphabet (every <azimuth> is refused by the parser: known finding; family azimuth3 keeps it visible)",
+            "angles are clockwise left -> right in 0..400 gon; every network with angles contains the explement of its first angle (> 200 gon)",
             "instrument/target heights (from-dh, to-dh), deflections of the vertical, b/l/h input and angular values in degrees are not varied",
         ])
 
